@@ -44,6 +44,16 @@ type stepOpts struct {
 	newObjects      map[string]bool     // object structs of which composite literals (fresh objects) are accepted
 	frag            *ast.FuncDecl       // a synthesized declaration (fragment) to translate instead of the one looked up
 	fragFile        string
+	// phase 6 (gotrans_c16.go)
+	byValue map[string]bool   // value structs used as Go values (not through pointers): local field assignment is allowed
+	rename  map[string]string // Go struct name -> Lean structure name (collisions with Lean names)
+	nilable map[string]bool   // opaque enum-like types with a nil value that may be compared with nil
+	boxAny  map[string]string // struct type -> external that wraps a value of it where `any` is expected
+	opaque  map[string]bool   // interface types modelled as opaque values (V)
+	// phase 6, errors as values (gotrans_err.go)
+	errorType   string            // Lean type of Go `error` in this unit ("" = Option GoErr, format string only)
+	errorImpls  map[string]string // struct type -> Lean function turning a value of it into an error
+	stringTypes map[string]bool   // named string types (type T string) translated as String
 }
 
 // valueStructsNow: the value structs of the unit being built (isObject is a free function).
@@ -137,6 +147,16 @@ func (c *fnCtx) stepExpr(e ast.Expr, want *gty) (string, *gty, bool) {
 	u := c.u
 	if u.step.funcSums != nil {
 		if s, t, ok := c.tabExpr(e, want); ok {
+			return s, t, true
+		}
+	}
+	if u.step.byValue != nil {
+		if s, t, ok := c.c16Expr(e, want); ok {
+			return s, t, true
+		}
+	}
+	if u.step.errorType != "" {
+		if s, t, ok := c.errExpr(e, want); ok {
 			return s, t, true
 		}
 	}
@@ -320,6 +340,9 @@ func (c *fnCtx) stepStmt(ind int, s ast.Stmt) bool {
 	if c.u.step.funcSums != nil && c.tabStmt(ind, s) {
 		return true
 	}
+	if c.u.step.errorType != "" && c.errStmt(ind, s) {
+		return true
+	}
 	switch v := s.(type) {
 	case *ast.RangeStmt:
 		if v.Key == nil || exprString(v.Key) == "_" || v.Tok != token.DEFINE {
@@ -409,8 +432,16 @@ func rootIdent(e ast.Expr) string {
 func (c *fnCtx) stepAssignTo(ind int, lhs ast.Expr, rhs string, pos token.Pos) bool {
 	switch l := lhs.(type) {
 	case *ast.SelectorExpr:
+		if inner, ok := l.X.(*ast.SelectorExpr); ok && c.u.step.errorType != "" {
+			// x.a.f = v where x.a is a struct held by value: x.a = { x.a with f := v }
+			if t := c.typeOnly(inner); t.kind == "named" && c.u.step.valueStructs[t.name] {
+				xs, _ := c.expr(inner, nil)
+				c.assignTo(ind, inner, "{ "+xs+" with "+leanIdent(l.Sel.Name)+" := "+rhs+" }", pos)
+				return true
+			}
+		}
 		// a field assignment through a pointer to an immutable struct would be visible through every alias
-		if t := c.typeOnly(l.X); t.kind == "named" && c.u.step.valueStructs[t.name] {
+		if t := c.typeOnly(l.X); t.kind == "named" && c.u.step.valueStructs[t.name] && !(c.u.step.byValue != nil && c.c16FieldAssignOK(l)) {
 			c.fail(pos, "assignment to the field %s of the immutable struct type %s", l.Sel.Name, t.name)
 			return true
 		}
@@ -452,6 +483,9 @@ func (c *fnCtx) stepCheckNilGuard(as *ast.AssignStmt) {
 		}
 	}
 	if exprString(as.Lhs[0]) == "_" {
+		good = true
+	}
+	if c.u.step.byValue != nil && c.c16InitGuard(as) {
 		good = true
 	}
 	if !good {
@@ -709,7 +743,7 @@ func (u *transUnit) declareValueStruct(name string, keep []string) {
 			u.step.dropped[name][f] = true
 		}
 	}
-	if n := len(u.defs); n > 0 && strings.Contains(u.defs[n-1], "structure "+name+" ") {
+	if n := len(u.defs); n > 0 && strings.Contains(u.defs[n-1], "structure "+u.leanStructName(name)+" ") {
 		u.defs[n-1] += "\n  deriving Inhabited"
 	}
 }
